@@ -700,4 +700,105 @@ Section Ins.
       + intros x Hx. apply (sh_only _ _ _ _ _ HS). specialize (Hsame3 x).
         destruct (get_node A3 x); [|congruence]. destruct (get_node A2 x); [discriminate|contradiction].
   Qed.
+
+  (* ---------------------------------------------------------------- per-port listings *)
+  Lemma filter_nil {X} (f : X -> bool) (l : list X) : (forall x, In x l -> f x = false) -> filter f l = [].
+  Proof.
+    induction l as [|x r IH]; cbn; [reflexivity|]. intros H. rewrite (H x) by now left. apply IH.
+    intros y Hy. apply H. now right.
+  Qed.
+  Lemma lo_app2 (L1 L2 : list (port * port)) q : lo (L1 ++ L2) q = lo L1 q ++ lo L2 q.
+  Proof. unfold lo. now rewrite filter_app, map_app. Qed.
+  Lemma li_app2 (L1 L2 : list (port * port)) q : li (L1 ++ L2) q = li L1 q ++ li L2 q.
+  Proof. unfold li. now rewrite filter_app, map_app. Qed.
+
+  Section Ports.
+    Variables (A B A' : hugr) (p : nid) (m : mapping).
+    Hypothesis HIA : Inv A.
+    Hypothesis HIB : Inv B.
+    Hypothesis HIA' : Inv A'.
+    Hypothesis HIF : IsoFrame A B p m A'.
+
+    Lemma mapn_inj a b : get_node B a <> None -> get_node B b <> None -> mapn m a = mapn m b -> a = b.
+    Proof.
+      intros Ha Hb E. apply (if_dom _ _ _ _ _ HIF) in Ha, Hb.
+      destruct (mget m a) as [a'|] eqn:Ea; [|congruence]. destruct (mget m b) as [b'|] eqn:Eb; [|congruence].
+      rewrite (mapn_get _ _ _ Ea), (mapn_get _ _ _ Eb) in E. subst b'. eapply (if_inj _ _ _ _ _ HIF); eassumption.
+    Qed.
+    Lemma mapn_fresh a : get_node B a <> None -> get_node A (mapn m a) = None.
+    Proof.
+      intros Ha. apply (if_dom _ _ _ _ _ HIF) in Ha. destruct (mget m a) as [a'|] eqn:Ea; [|congruence].
+      rewrite (mapn_get _ _ _ Ea). eapply (if_fresh _ _ _ _ _ HIF); eassumption.
+    Qed.
+    Lemma mapp_eqb (q1 q2 : port) : get_node B (fst q1) <> None -> get_node B (fst q2) <> None ->
+      port_eqb (mapp m q1) (mapp m q2) = port_eqb q1 q2.
+    Proof.
+      intros H1 H2. destruct (port_eqb_spec q1 q2) as [->|Hne].
+      - destruct (port_eqb_spec (mapp m q2) (mapp m q2)); congruence.
+      - destruct (port_eqb_spec (mapp m q1) (mapp m q2)) as [E|]; [|reflexivity]. exfalso. apply Hne.
+        destruct q1 as [n1 o1], q2 as [n2 o2]. unfold mapp in E. cbn [fst snd] in *. injection E as E1 E2.
+        f_equal; [now apply mapn_inj|assumption].
+    Qed.
+
+    (* every link of B with its port offsets and multiplicity, seen from either end *)
+    Theorem insert_linked_out_iso q : get_node B (fst q) <> None ->
+      Permutation (linked_out A' (mapp m q)) (map (mapp m) (linked_out B q)).
+    Proof.
+      intros Hq. destruct HIA' as (HLA' & _). destruct HIB as (HLB & _ & HCB & _). destruct HIA as (_ & _ & HCA & _).
+      rewrite (linked_out_refines (links A') _ (mapp m q) HLA' (if_links _ _ _ _ _ HIF)).
+      rewrite (Permutation_map (mapp m) (linked_out_refines (links B) _ q HLB (Permutation_refl _))).
+      rewrite lo_app2.
+      assert (lo (q_links A) (mapp m q) = []) as ->.
+      { unfold lo. rewrite filter_nil; [reflexivity|]. intros [s t] Hin. cbn [fst].
+        destruct (port_eqb_spec s (mapp m q)) as [->|]; [|reflexivity]. exfalso.
+        destruct (HCA _ _ Hin) as ((d & E & _) & _). cbn [mapp fst] in E. rewrite (mapn_fresh _ Hq) in E. discriminate. }
+      cbn [app]. unfold lo. rewrite filter_map_comm, !map_map. apply Permutation_refl'.
+      rewrite (filter_ext_in _ (fun l => port_eqb (fst l) q)); [reflexivity|].
+      intros [s t] Hin. cbn [mapl fst]. apply mapp_eqb; [|assumption].
+      destruct (HCB _ _ Hin) as ((d & E & _) & _). congruence.
+    Qed.
+    Theorem insert_linked_in_iso q : get_node B (fst q) <> None ->
+      Permutation (linked_in A' (mapp m q)) (map (mapp m) (linked_in B q)).
+    Proof.
+      intros Hq. destruct HIA' as (HLA' & _). destruct HIB as (HLB & _ & HCB & _). destruct HIA as (_ & _ & HCA & _).
+      rewrite (linked_in_refines (links A') _ (mapp m q) HLA' (if_links _ _ _ _ _ HIF)).
+      rewrite (Permutation_map (mapp m) (linked_in_refines (links B) _ q HLB (Permutation_refl _))).
+      rewrite li_app2.
+      assert (li (q_links A) (mapp m q) = []) as ->.
+      { unfold li. rewrite filter_nil; [reflexivity|]. intros [s t] Hin. cbn [snd].
+        destruct (port_eqb_spec t (mapp m q)) as [->|]; [|reflexivity]. exfalso.
+        destruct (HCA _ _ Hin) as (_ & (d & E & _)). cbn [mapp fst] in E. rewrite (mapn_fresh _ Hq) in E. discriminate. }
+      cbn [app]. unfold li. rewrite filter_map_comm, !map_map. apply Permutation_refl'.
+      rewrite (filter_ext_in _ (fun l => port_eqb (snd l) q)); [reflexivity|].
+      intros [s t] Hin. cbn [mapl snd]. apply mapp_eqb; [|assumption].
+      destruct (HCB _ _ Hin) as (_ & (d & E & _)). congruence.
+    Qed.
+    (* frame: the ports of A's nodes list what they listed before *)
+    Theorem insert_linked_out_frame q : get_node A (fst q) <> None ->
+      Permutation (linked_out A' q) (linked_out A q).
+    Proof.
+      intros Hq. destruct HIA' as (HLA' & _). destruct HIB as (_ & _ & HCB & _). destruct HIA as (HLA & _).
+      rewrite (linked_out_refines (links A') _ q HLA' (if_links _ _ _ _ _ HIF)).
+      rewrite (linked_out_refines (links A) _ q HLA (Permutation_refl _)).
+      rewrite lo_app2.
+      assert (lo (map (mapl m) (q_links B)) q = []) as ->; [|now rewrite app_nil_r].
+      unfold lo. rewrite filter_nil; [reflexivity|]. intros l Hin. apply in_map_iff in Hin.
+      destruct Hin as ([s t] & <- & Hin). cbn [mapl fst].
+      destruct (port_eqb_spec (mapp m s) q) as [<-|]; [|reflexivity]. exfalso. apply Hq. cbn [mapp fst].
+      apply mapn_fresh. destruct (HCB _ _ Hin) as ((d & E & _) & _). congruence.
+    Qed.
+    Theorem insert_linked_in_frame q : get_node A (fst q) <> None ->
+      Permutation (linked_in A' q) (linked_in A q).
+    Proof.
+      intros Hq. destruct HIA' as (HLA' & _). destruct HIB as (_ & _ & HCB & _). destruct HIA as (HLA & _).
+      rewrite (linked_in_refines (links A') _ q HLA' (if_links _ _ _ _ _ HIF)).
+      rewrite (linked_in_refines (links A) _ q HLA (Permutation_refl _)).
+      rewrite li_app2.
+      assert (li (map (mapl m) (q_links B)) q = []) as ->; [|now rewrite app_nil_r].
+      unfold li. rewrite filter_nil; [reflexivity|]. intros l Hin. apply in_map_iff in Hin.
+      destruct Hin as ([s t] & <- & Hin). cbn [mapl snd].
+      destruct (port_eqb_spec (mapp m t) q) as [<-|]; [|reflexivity]. exfalso. apply Hq. cbn [mapp fst].
+      apply mapn_fresh. destruct (HCB _ _ Hin) as (_ & (d & E & _)). congruence.
+    Qed.
+  End Ports.
 End Ins.
